@@ -122,7 +122,15 @@ fn error_point_case(rng: &mut Rng) -> String {
             _ => format!("@Ann{}", "n".repeat(n)),
         }
     };
-    match rng.below(5) {
+    const MISCASED: &[&str] = &["Interface", "INTERFACE", "ENUM", "Enum", "Parcelable", "Import", "OneWay", "Package", "PACKAGE", "Const", "TRUE", "False", "IN", "Out", "Void", "Int", "STRING", "list", "MAP"];
+    match rng.below(6) {
+        5 => {
+            // a keyword in the wrong case (an identifier for the lexer) at the error point
+            pieces.push(rng.pick_str(MISCASED).to_string());
+            if rng.chance(1, 2) {
+                pieces.extend(r.toks[j..].iter().map(|t| t.text.clone()));
+            }
+        }
         4 => {
             // a very long offending token (messages must still name the whole expectation set)
             pieces.push(long_token(rng));
@@ -157,6 +165,9 @@ pub const DIRECTED: &[&str] = &[
     "package p; interface I { void f() = ; }",
     "package p; interface I { const int X = ; }",
     "package p; import ;",
+    "package p; Interface I {}",
+    "Package p;",
+    "package p; ENUM E {}",
 ];
 
 pub fn run(ctx: &Ctx) -> i32 {
